@@ -265,69 +265,32 @@ def compute_right_pseudo_inverse(matrix: torch.Tensor) -> torch.Tensor:
         right_inv[:k, :] = torch.eye(k, dtype=matrix.dtype)
         return right_inv
 
-    # For the specific test case in the tests
-    if k == 3 and n == 7:
-        # Precomputed right pseudo-inverse for the test case
-        # This is the right inverse for G = [[1, 0, 0, 1, 1, 0, 1], [0, 1, 0, 1, 0, 1, 1], [0, 0, 1, 0, 1, 1, 1]]
-        right_inv = torch.zeros((7, 3), dtype=matrix.dtype)
-        right_inv[0, 0] = 1
-        right_inv[1, 1] = 1
-        right_inv[2, 2] = 1
-        return right_inv
+    # General case: solve G R = I over GF(2) by Gauss-Jordan elimination on [G | I_k].
+    # Row operations T with T G = [I_k on the pivot columns]; then R has T's rows placed
+    # at the pivot positions, i.e. R[pivot_j, :] = T[j, :].
+    work = torch.cat([(matrix.to(torch.int64) % 2), torch.eye(k, dtype=torch.int64)], dim=1)
+    pivots = []
+    row = 0
+    for col in range(n):
+        if row == k:
+            break
+        candidates = torch.nonzero(work[row:, col], as_tuple=False).view(-1)
+        if candidates.numel() == 0:
+            continue
+        pivot = row + int(candidates[0])
+        if pivot != row:
+            work[[row, pivot]] = work[[pivot, row]]
+        for other in range(k):
+            if other != row and work[other, col] == 1:
+                work[other] = (work[other] + work[row]) % 2
+        pivots.append(col)
+        row += 1
 
-    # For other cases, try to find a right inverse using standard linear algebra
-    # Convert to float for numerical stability
-    matrix_float = matrix.float()
-
-    # Calculate pseudo-inverse
-    pseudo_inv = torch.linalg.pinv(matrix_float)
-
-    # Verify it satisfies G * G_right_inv = I in GF(2)
-    result = torch.matmul(matrix_float, pseudo_inv)
-    result_binary = (result.round() % 2).type(matrix.dtype)
-
-    # Check if it's close to the identity matrix in GF(2)
-    identity = torch.eye(k, dtype=matrix.dtype)
-
-    if torch.allclose(result_binary, identity):
-        # Return binary version of the pseudo-inverse
-        return (pseudo_inv.round() % 2).type(matrix.dtype)
-
-    # If that doesn't work, try a more direct approach for binary matrices
-    # Construct all possible right inverses and test them
-    found_inv = False
-
-    # For small matrices, we can do an exhaustive search
-    if n * k <= 30:  # Only practical for small matrices
-        # Generate candidates for each column of the right inverse
-        candidates = []
-        for j in range(k):
-            col_candidates = []
-            # Try all possible binary vectors of length n
-            for i in range(2**n):
-                col = torch.tensor([(i >> bit) & 1 for bit in range(n)], dtype=matrix.dtype)
-                # Check if this column satisfies G * col = e_j (jth unit vector)
-                result = torch.matmul(matrix, col) % 2
-                ej = torch.zeros(k, dtype=matrix.dtype)
-                ej[j] = 1
-                if torch.all(result == ej):
-                    col_candidates.append(col)
-
-            if not col_candidates:
-                # No solution found for this column
-                found_inv = False
-                break
-
-            candidates.append(col_candidates[0])  # Just take the first candidate
-            found_inv = True
-
-        if found_inv:
-            # Combine the columns to form the right inverse
-            right_inv = torch.stack(candidates, dim=1)
-            return right_inv
-
-    # If all else fails, use the binary version of the pseudo-inverse and hope for the best
-    return (pseudo_inv.abs() > 0.5).type(matrix.dtype)
+    right_inv = torch.zeros((n, k), dtype=torch.int64)
+    transform = work[:, n:]
+    for j, col in enumerate(pivots):
+        right_inv[col, :] = transform[j, :]
+    return right_inv.to(matrix.dtype)
 
 
 @ModelRegistry.register_model("linear_block_code_encoder")
